@@ -84,7 +84,14 @@ class Concretizer:
             c = self.heap.data.get((v.ref, "$"))
             return {"$set": [self.val(x, depth + 1) for x in c.items]} if c else {"$set": []}
         if t == "opaque":
-            return {"$opaque": v.sort, "id": str(self.ev(v.t))}
+            d = {"$opaque": v.sort, "id": str(self.ev(v.t))}
+            info = getattr(self.I.cset, "opaque_info", {}).get(v.sort)
+            if info is not None and depth < MAX_DEPTH:
+                try:
+                    d["ghost"] = info(self.I, self, v, self.heap)
+                except Exception as e:      # noqa
+                    d["ghost_error"] = str(e)
+            return d
         if t == "fn":
             if v.kind == "bound":
                 o = v.obj
